@@ -361,11 +361,13 @@ func thorough(prop, repo string, rep *core.Report) {
 	})
 	killed, survived, skipped, neutralSame, neutralDiff := 0, 0, 0, 0, 0
 	var survivors, killedSamples []any
+	var killedAll []string
 	byOp := map[string][2]int{}
 	for _, r := range results {
 		switch r.Status {
 		case "killed":
 			killed++
+			killedAll = append(killedAll, fmt.Sprintf("%s:%d %s %s %s", filepath.Base(r.Mutant.File), r.Mutant.Line, r.Mutant.Func, r.Mutant.Op, r.Mutant.Desc))
 			if len(killedSamples) < 12 {
 				killedSamples = append(killedSamples, r.Mutant)
 			}
@@ -410,6 +412,7 @@ func thorough(prop, repo string, rep *core.Report) {
 		"scope":           scopes[prop],
 		"per_operator":    ops,
 		"reported_sample": killedSamples,
+		"reported_all":    killedAll,
 		"silent_mutants":  survivors,
 	}
 	if killed == 0 {
